@@ -15,7 +15,7 @@ import (
 
 type ErrDesc struct {
 	UID   int      `json:"uid"`
-	Kind  string   `json:"kind"` // plain | foreign | application | transport | protocol | none
+	Kind  string   `json:"kind"` // plain | foreign | application | transport | protocol | fmtwrap | none
 	Tid   int      `json:"tid"`
 	Msg   string   `json:"msg"`
 	Text  string   `json:"text"`
@@ -61,6 +61,8 @@ func buildErr(d *ErrDesc, memo map[int]error) error {
 		e = errors.New(d.Text)
 	case "foreign":
 		e = &foreignExc{int32(d.Tid), d.Text}
+	case "fmtwrap": // text = "ctx: " + the cause's text
+		e = fmt.Errorf("ctx: %w", buildErr(d.Cause, memo))
 	case "application":
 		e = thrift.NewApplicationException(int32(d.Tid), d.Msg)
 	case "transport":
@@ -107,8 +109,12 @@ func runExcCase(raw json.RawMessage, w *TraceWriter) {
 		in := buildErr(c.In, memo)
 		out := thrift.NewProtocolExceptionWithErr(in)
 		same := error(out) == in
+		iscause := true
+		if c.In.Cause != nil && c.In.Cause.Kind != "none" {
+			iscause = errors.Is(out, buildErr(c.In.Cause, memo))
+		}
 		w.Ev("exc_wrap", "in", Raw(descJSON(c.In)), "out", Raw(obsJSON(out)), "same", same,
-			"unwrapsame", errors.Unwrap(out) == in, "isin", errors.Is(out, in))
+			"unwrapsame", errors.Unwrap(out) == in, "isin", errors.Is(out, in), "iscause", iscause)
 	case "is":
 		x := buildErr(c.X, memo)
 		t := buildErr(c.T, memo)
@@ -151,7 +157,7 @@ func genExcCases(c *Ctx) []json.RawMessage {
 	}
 	// the wrapped form as the library builds it: tid 0, msg = cause's Error() text
 	textOf := func(d *ErrDesc) string {
-		if d.Kind == "plain" || d.Kind == "foreign" {
+		if d.Kind == "plain" || d.Kind == "foreign" || d.Kind == "fmtwrap" {
 			return d.Text
 		}
 		if d.Msg != "" {
@@ -162,6 +168,10 @@ func genExcCases(c *Ctx) []json.RawMessage {
 	wrap := func(cause *ErrDesc) *ErrDesc {
 		uid++
 		return &ErrDesc{UID: uid, Kind: "protocol", Tid: 0, Msg: textOf(cause), Cause: cause}
+	}
+	fmtwrap := func(cause *ErrDesc) *ErrDesc {
+		uid++
+		return &ErrDesc{UID: uid, Kind: "fmtwrap", Text: "ctx: " + textOf(cause), Cause: cause}
 	}
 	var all []*ErrDesc
 	for _, k := range []string{"plain", "foreign", "application", "transport", "protocol"} {
@@ -179,6 +189,18 @@ func genExcCases(c *Ctx) []json.RawMessage {
 		if all[i].Kind != "protocol" && (i%3 == 0 || c.Thorough()) {
 			w1 := wrap(all[i])
 			all = append(all, w1)
+		}
+	}
+	// standard-library wrappers (fmt.Errorf %w) around every kind, around wrapped protocol exceptions, and nested twice
+	for i := 0; i < base; i++ {
+		if i%2 == 0 || c.Thorough() || all[i].Kind == "protocol" {
+			all = append(all, fmtwrap(all[i]))
+		}
+	}
+	for i := base; i < base+40 && i < len(all); i++ {
+		if all[i].Kind == "protocol" {
+			f := fmtwrap(all[i])
+			all = append(all, f, fmtwrap(f))
 		}
 	}
 	for i := 0; i < c.Pick(300, 5000); i++ { // random int32 type ids and messages
@@ -221,6 +243,12 @@ func genExcCases(c *Ctx) []json.RawMessage {
 				if k != "protocol" { // wrapping a protocol exception is the identity: no such value exists
 					out = append(out, mustJSON(ExcCase{Fn: "is", X: wrap(mk(k, t, m)), T: mk(k, t, m)}))
 				}
+				// through a standard-library wrapper: by identity of the buried value, by (type id, text), and a near miss
+				inner := mk("protocol", t, m)
+				out = append(out, mustJSON(ExcCase{Fn: "is", X: fmtwrap(inner), T: inner}))
+				out = append(out, mustJSON(ExcCase{Fn: "is", X: fmtwrap(inner), T: mk(k, t, m)}))
+				out = append(out, mustJSON(ExcCase{Fn: "is", X: wrap(fmtwrap(inner)), T: inner}))
+				out = append(out, mustJSON(ExcCase{Fn: "is", X: wrap(fmtwrap(inner)), T: mk(k, t+1, m)}))
 			}
 		}
 	}
@@ -228,7 +256,7 @@ func genExcCases(c *Ctx) []json.RawMessage {
 }
 
 func checkC18(c *Ctx) {
-	c.rule = "MC: the full case table of the algebra over all kinds x type ids {0,1,6,10,11,-1,2^31-1,-2^31} x messages {\"\",m} x prefixes x cause chains of depth <= 2 satisfies the clauses of C18. TRACE: every (kind, type id, message, prefix) combination incl. empty messages (default-message table), long and binary messages, random int32 type ids, wrapped chains; PrependError, NewProtocolExceptionWithErr, errors.Is (pairwise truth table, targeted (type id, text) matches and near-misses) and Unwrap on real values; TLC computes the expected dynamic kind, TypeId, Error() text and Is outcome."
+	c.rule = "MC: the full case table of the algebra over all kinds x type ids {0,1,6,10,11,-1,2^31-1,-2^31} x messages {\"\",m} x prefixes x cause chains of depth <= 2 (incl. standard-library %w wrappers around every kind) satisfies the clauses of C18. TRACE: every (kind, type id, message, prefix) combination incl. empty messages (default-message table), long and binary messages, random int32 type ids, wrapped chains, fmt.Errorf(%w) wrappers around every kind (a protocol exception buried in a wrapper is wrapped, not returned); PrependError, NewProtocolExceptionWithErr, errors.Is (pairwise truth table, targeted (type id, text) matches and near-misses) and Unwrap on real values; TLC computes the expected dynamic kind, TypeId, Error() text and Is outcome."
 	c.MC("MC_Exceptions.tla", "MC_Exceptions.cfg", 4)
 	c.TraceCheck(famExc, genExcCases(c))
 	c.Assume("error values are described to TLC as records (kind, type id, message, text, cause, identity)")
